@@ -2,6 +2,7 @@
  *
  *   c val  <src> <tgt> <value>          mpt_data_converter(src)(&v, tgt, dest) with and without destination
  *   c vval <src> <tgt> <value>          mpt_value_convert({&v, src}, tgt, dest)          "
+ *   c consume <src> <tgt> <value>       mpt_iterator_consume(iterator over {&v, src}, tgt, dest)   "
  *   c sweep <src> <tgt> <lo> <hi>       the same as `c val` for every integer lo..hi, summarised
  *   c text <number|string|cint> <tgt> <hex>   mpt_convert_number / mpt_convert_string / mpt_c[u]intN on the C string
  *   c ftext <number|string|cflt> <tgt> <hex>  the same for the floating targets f d e
@@ -131,11 +132,26 @@ static const char *retname(int r, char *buf, size_t len)
 	snprintf(buf, len, "%d", r);
 	return buf;
 }
+
 static mpt_type_t tcode(const struct ty *t) { return (mpt_type_t) (unsigned char) t->code; }
 
-/* one conversion, mode 0: converter from mpt_data_converter, mode 1: mpt_value_convert */
+/* minimal iterator over one value (for mpt_iterator_consume) */
+static MPT_STRUCT(value) it_value;
+static int it_advanced;
+static const MPT_STRUCT(value) *it_get(MPT_INTERFACE(iterator) *it) { (void) it; return &it_value; }
+static int it_advance(MPT_INTERFACE(iterator) *it) { (void) it; ++it_advanced; return 0; }
+static int it_reset(MPT_INTERFACE(iterator) *it) { (void) it; return 0; }
+static const MPT_INTERFACE_VPTR(iterator) it_vptr = { it_get, it_advance, it_reset };
+static MPT_INTERFACE(iterator) it_obj = { &it_vptr };
+
+/* one conversion, mode 0: converter from mpt_data_converter, mode 1: mpt_value_convert, mode 2: mpt_iterator_consume */
 static int do_conv(int mode, const struct ty *src, const struct ty *tgt, void *dest)
 {
+	if (mode == 2) {
+		it_value._addr = srcbuf;
+		it_value._type = tcode(src);
+		return mpt_iterator_consume(&it_obj, tcode(tgt), dest);
+	}
 	if (mode == 0) {
 		MPT_TYPE(data_converter) conv = mpt_data_converter(tcode(src));
 		if (!conv) return MPT_ERROR(BadType);
@@ -275,11 +291,11 @@ int main(void)
 		drv_split(line);
 		if (drv_nw < 2 || strcmp(drv_w[0], "c")) { puts("bad-op"); continue; }
 		const char *op = drv_w[1];
-		if ((!strcmp(op, "val") || !strcmp(op, "vval")) && drv_nw == 5) {
+		if ((!strcmp(op, "val") || !strcmp(op, "vval") || !strcmp(op, "consume")) && drv_nw == 5) {
 			const struct ty *src = ty_of(drv_w[2]), *tgt = ty_of(drv_w[3]);
 			wide iv;
 			if (!src || !tgt || parse_src(src, drv_w[4], &iv)) { puts("bad-op"); continue; }
-			op_val(op[1] == 'v', src, tgt);
+			op_val(op[0] == 'c' ? 2 : op[1] == 'v', src, tgt);
 		}
 		else if (!strcmp(op, "sweep") && drv_nw == 6) {
 			const struct ty *src = ty_of(drv_w[2]), *tgt = ty_of(drv_w[3]);
